@@ -24,6 +24,7 @@ from typing import Any
 from typing import ClassVar
 
 from numpy import argmax
+from numpy import asarray
 from numpy import full
 from numpy import ndarray
 from numpy import tile
@@ -246,8 +247,12 @@ class FirstOrderFD(BaseGradientApproximator):
         else:
             upper_bounds = self._design_space.get_upper_bounds()
 
+        # Use a backward step when the forward one would exceed the upper bound.
+        input_indices = list(input_indices)
+        step = asarray(step)
         steps = where(
-            input_perturbations[input_indices, range(n_indices)] >= upper_bounds,
+            input_perturbations[input_indices, range(n_indices)] + step
+            > upper_bounds[input_indices],
             -step,
             step,
         )
